@@ -15,6 +15,7 @@
 package storage
 
 import (
+	encbinary "encoding/binary"
 	"errors"
 	"io"
 	"time"
@@ -72,6 +73,36 @@ type lookupQuery struct {
 	Until       int64        // The end of the time window.
 	StartFromID message.ID   // The ID to start from when retrieving message, used for pagination.
 	Limit       int          // The maximum number of elements to return.
+}
+
+// saneQuery walks an encoded lookupQuery and checks that no count or length it announces is
+// larger than the payload itself, so that decoding does not allocate for data that is not there.
+func saneQuery(payload []byte) bool {
+	next := func() (uint64, bool) {
+		v, n := encbinary.Uvarint(payload)
+		if n <= 0 {
+			return 0, false
+		}
+		payload = payload[n:]
+		return v, true
+	}
+
+	count, ok := next() // Ssid
+	if !ok || count > uint64(len(payload)) {
+		return false
+	}
+	for i := uint64(0); i < count+2; i++ { // Ssid elements, From, Until
+		if _, ok = next(); !ok {
+			return false
+		}
+	}
+	size, ok := next() // StartFromID
+	if !ok || size > uint64(len(payload)) {
+		return false
+	}
+	payload = payload[size:]
+	_, ok = next() // Limit
+	return ok && len(payload) == 0
 }
 
 // newLookupQuery creates a new lookup query
